@@ -122,7 +122,7 @@ def run(tier='quick'):
     logging.getLogger('andes').setLevel(logging.CRITICAL)
     case = andes.get_case('smib/SMIB.json')
     variants = [dict(D=1.0, M=5.7512, xd1=0.245, p0=0.9, events=dict(tf=0.1, tc=0.2, trip=None, reclose=None)),
-                dict(D=4.0, M=3.2, xd1=0.75, p0=0.7, Sn=250.0, events=dict(tf=0.2, tc=0.27, trip=0.5, reclose=0.9))]       # machine base 250 MVA
+                dict(D=4.0, M=3.2, xd1=0.75, p0=0.7, Sn=250.0, events=dict(tf=2.0 / 9.0, tc=0.2718281828459045, trip=0.5235987755982988, reclose=0.9 / 0.99))]       # machine base 250 MVA
     if tier == 'thorough':
         variants += [dict(D=0.0, M=4.0, xd1=0.2, p0=0.6, events=dict(tf=0.13, tc=0.21, trip=0.21, reclose=None)),
                      dict(D=2.5, M=12.0, xd1=0.35, p0=0.5, events=dict(tf=0.3, tc=0.36, trip=None, reclose=None))]
